@@ -10,6 +10,7 @@ of kept modes (`skip_dim + 1`, `0` when absent), `ML.TtsvSkipOk d skip` says `sk
 -/
 import PyttbModel.Lemmas.MLTtsv
 import PyttbModel.Lemmas.MLTuckerSparseOps
+import PyttbModel.Lemmas.MLRejects
 namespace Pyttb
 
 variable {α : Type}
@@ -161,6 +162,66 @@ theorem C02_tucker_sparse_core_eq_dense_core [CommSemiring α] [DecidableEq α] 
   ⟨fun D hD => MLK.tuckerS_innerprodDense_eq T hT hN D hD, fun S hS => MLK.tuckerS_innerprodSparse_eq T hT hN S hS,
    MLK.tuckerS_normSq_eq T hT hN, fun k => MLK.expandS_den_get T hT.core k⟩
 
+/-! ### what the Kruskal / Tucker / sum kernels refuse -/
+
+/-- `get_mttkrp_factors` refuses a factor list or a Kruskal operand with another number of factors than the tensor
+has modes, and a Kruskal operand that lacks the factor its weights would be absorbed into (mode 1 for `n = 0`,
+else mode 0). -/
+theorem C02_get_mttkrp_factors_rejects [Mul α] (n N : Nat) :
+    (∀ L : List (Mat α), L.length ≠ N → getMttkrpFactors (.list L) n N = .error .reject) ∧
+    (∀ K : Ktensor α, (K.factors.length ≠ N ∨ K.factors.length ≤ (if n == 0 then 1 else 0)) →
+      getMttkrpFactors (.kruskal K) n N = .error .reject) :=
+  ⟨fun L h => MLK.getMttkrpFactors_rejects (.list L) n N h, fun K h => MLK.getMttkrpFactors_rejects (.kruskal K) n N h⟩
+
+/-- `mttkrp` of every representation refuses what `get_mttkrp_factors` refuses; the sparse, Kruskal and Tucker
+kernels refuse a mode index that is not a mode. -/
+theorem C02_mttkrp_parts_rejects [Add α] [Mul α] [Zero α] [BEq α] (p : ML.Part α) (U : KOperand α) (n : Nat) :
+    (getMttkrpFactors U n p.shape.length = .error .reject → p.mttkrp U n = .error .reject) ∧
+    (p.shape.length ≤ n → (∀ t, p ≠ .dense t) → p.mttkrp U n = .error .reject) :=
+  ⟨MLK.part_mttkrp_rejects_factors p U n, MLK.part_mttkrp_rejects_mode p U n⟩
+
+/-- `ttensor.mttkrp` (dense or sparse core) refuses a factor matrix of a mode other than `n` whose number of rows
+is not the extent of its mode; with a sparse core it also refuses what `get_mttkrp_factors` refuses and a mode
+index that is not a mode. -/
+theorem C02_mttkrp_tucker_rejects [Add α] [Mul α] [Zero α] [BEq α] (F : List (Mat α)) (cd : Dense α) (cs : Sparse α)
+    (n : Nat) :
+    (∀ (U : List (Mat α)) (m : Nat), m < F.length → m ≠ n → (U.getD m []).length ≠ (F.getD m []).length →
+      Ttensor.mttkrp ⟨cd, F⟩ (.list U) n = .error .reject ∧ TtensorS.mttkrp ⟨cs, F⟩ (.list U) n = .error .reject) ∧
+    (∀ U : KOperand α, (getMttkrpFactors U n F.length = .error .reject ∨ F.length ≤ n) →
+      TtensorS.mttkrp ⟨cs, F⟩ U n = .error .reject) :=
+  ⟨fun U m hm hmn hrow => MLK.tucker_mttkrp_rejects_rows F cd cs U n m hm hmn hrow,
+   fun U h => MLK.tuckerS_mttkrp_rejects ⟨cs, F⟩ U n h⟩
+
+/-- `ktensor.ttv` refuses a mode that is paired with two vectors. -/
+theorem C02_ttv_kruskal_rejects_repeated_mode [Add α] [Mul α] [Zero α] (K : Ktensor α) (pairs : List (Nat × List α))
+    (hdup : ¬ (pairs.map (·.1)).Nodup) : K.ttvCore pairs = .error .reject := MLK.kruskal_ttvCore_rejects_dup K pairs hdup
+
+/-- `ttensor.ttm` refuses whatever mode designation `tt_dimscheck` refuses and a matrix whose size does not fit
+the extent of its mode (rows when transposed, columns otherwise). -/
+theorem C02_ttm_tucker_rejects [Add α] [Mul α] [Zero α] (T : Ttensor α) (Ms : List (Dense.MatArg α))
+    (dims excl : Option (List Int)) (tr : Bool) :
+    (resolveModes T.factors.length Ms dims excl = .error .reject → T.ttm Ms dims excl tr = .error .reject) ∧
+    (∀ pairs, resolveModes T.factors.length Ms dims excl = .ok pairs →
+      (∃ p ∈ pairs, (if tr then p.2.m else p.2.n) ≠ (T.factors.getD p.1 []).length) →
+      T.ttm Ms dims excl tr = .error .reject) := MLK.tucker_ttm_rejects T Ms dims excl tr
+
+/-- `x.innerprod(y)` of two objects of different shapes is refused, for every pair of representations (all 16
+dispatch cases); with a sparse core, `ttensor.innerprod` refuses a sparse or Kruskal operand of another shape. -/
+theorem C02_innerprod_parts_rejects [Add α] [Mul α] [Zero α] [BEq α] :
+    (∀ x y : ML.Part α, x.shape ≠ y.shape → x.innerprod y = .error .reject) ∧
+    (∀ (T : TtensorS α) (S : Sparse α), T.shape ≠ S.shape → T.innerprodSparse S = .error .reject) ∧
+    (∀ (T : TtensorS α) (K : Ktensor α), K.shape ≠ T.shape → T.innerprodKruskal K = .error .reject) :=
+  ⟨MLK.part_innerprod_rejects, fun T => (MLK.tuckerS_innerprod_rejects T).1, fun T => (MLK.tuckerS_innerprod_rejects T).2⟩
+
+/-- A sum tensor without parts, or with a part for which the operation is refused, is refused: `mttkrp`, `ttv`
+and `full` (for `innerprod` see `C02_innerprod_sum_rejects`). -/
+theorem C02_sum_rejects [Add α] [Mul α] [Zero α] [BEq α] (S : ML.Sumtensor α) :
+    (∀ U n, (S = [] ∨ ∃ p ∈ S, p.mttkrp U n = .error .reject) → ML.Sumtensor.mttkrp S U n = .error .reject) ∧
+    (∀ vs dims excl, (∃ p ∈ S, p.ttv vs dims excl = .error .reject) → ML.Sumtensor.ttv S vs dims excl = .error .reject) ∧
+    ((S = [] ∨ ∃ p ∈ S, p.full = .error .reject) → ML.Sumtensor.full S = .error .reject) :=
+  ⟨fun U n h => MLK.sum_mttkrp_rejects S U n h, fun vs dims excl h => MLK.sum_ttv_rejects S vs dims excl h,
+   fun h => MLK.sum_full_rejects S h⟩
+
 /-! ### non-vacuity -/
 
 /-- A cubical `2 × 2 × 2` tensor and a vector with a negative entry. -/
@@ -206,5 +267,13 @@ example : (⟨⟨[2, 2], [[0, 1], [1, 0]], [3, -2]⟩, [[[1, 0], [0, 1], [1, -1]
   rw [(C02_innerprod_tucker_sparse_core _ ⟨⟨rfl, by decide, by decide, by decide⟩, rfl, by decide⟩ (by decide)).1
     ⟨[3, 2], [1, 0, 2, 0, 1, 1]⟩ rfl rfl]
   decide +kernel
+
+/-- Inputs on the reject side: a mode paired twice, a factor list that is too short, shapes that differ. -/
+example : ¬ (([(0, [1, 2]), (0, [3, 4])] : List (Nat × List Int)).map (·.1)).Nodup := by decide
+example : getMttkrpFactors (.list [[[1, 2]]] : KOperand Int) 0 2 = .error .reject := by decide +kernel
+example : (ML.Part.dense ⟨[2], [1, 2]⟩ : ML.Part Int).innerprod (.kruskal ⟨[1], [[[1], [2], [3]]]⟩) = .error .reject := by
+  decide +kernel
+example : (ML.Part.dense ⟨[2], [1, 2]⟩ : ML.Part Int).shape ≠ (ML.Part.kruskal ⟨[1], [[[1], [2], [3]]]⟩ : ML.Part Int).shape := by
+  decide
 
 end Pyttb
